@@ -186,7 +186,7 @@ SPECS["C11"] = {
               M("maptree", 4, MA + ",o_arena", hint=0), M("settree", 4, MA + ",o_arena", hint=1), K("ktree", 3, 2, KA + ",o_arena", hint=0),
               M("maptree", 10, "del,clear,o_arena", mode="shape"), M("settree", 10, "del,clear,o_arena", mode="shape", hint=9), K("ktree", 8, 0, "fleby,clear,o_arena", mode="shape", hint=9),
               M("maptree", 4, MA + ",o_arena", hint=64), K("ktree", 3, 2, KA + ",o_arena", hint=64)],
-    "thorough": [M("maptree", 4, MA + ",o_arena", hint=1000), K("ktree", 3, 2, KA + ",o_arena", hint=1000), M("maptree", 14, "del,clear,o_arena", mode="shape", cap_s=1500), M("settree", 14, "del,clear,o_arena", mode="shape", hint=9, cap_s=1500), M("maptree", 16, "del,o_arena", mode="shape", cap_s=2400, max_states=60000000, label="maptree<u16> N=16 shape hint=8 (second arena growth inside the exhaustive search)"), K("ktree", 5, 1, "get,o_arena"), F("maptree", MA + ",o_arena"), F("settree", MA + ",o_arena", hint=9), F("ktree", "fl,fle,fleby,get,o_arena"), F("maptree", MA + ",o_arena", hint=64, sizes="48,64,65,100"), M("maptree", 7, MA + ",o_arena"), M("settree", 7, MA + ",o_arena"), K("ktree", 4, 4, KA + ",o_arena"),
+    "thorough": [M("maptree", 4, MA + ",o_arena", hint=1000), K("ktree", 3, 2, KA + ",o_arena", hint=1000), M("maptree", 14, "del,clear,o_arena", mode="shape", cap_s=1500), M("settree", 14, "del,clear,o_arena", mode="shape", hint=9, cap_s=1500), K("ktree", 5, 1, "get,o_arena"), F("maptree", MA + ",o_arena"), F("settree", MA + ",o_arena", hint=9), F("ktree", "fl,fle,fleby,get,o_arena"), F("maptree", MA + ",o_arena", hint=64, sizes="48,64,65,100"), M("maptree", 7, MA + ",o_arena"), M("settree", 7, MA + ",o_arena"), K("ktree", 4, 4, KA + ",o_arena"),
                  M("maptree", 6, MA + ",o_arena", hint=0), M("settree", 6, MA + ",o_arena", hint=1), K("ktree", 4, 3, KA + ",o_arena", hint=1),
                  M("maptree", 12, "del,clear,o_arena", mode="shape"), M("maptree", 12, "del,clear,o_arena", mode="shape", hint=9), M("settree", 12, "del,clear,o_arena", mode="shape", hint=9),
                  K("ktree", 9, 1, "fleby,clear,o_arena", mode="shape", hint=9, cap_s=900), M("settree", 6, MA + ",o_arena", hint=64), K("ktree", 4, 3, KA + ",o_arena", hint=64)],
